@@ -135,10 +135,11 @@ func init() {
 			return VerifyOpts{OnlyKinds: []string{"pre", "post", "frame", "inv-init", "inv-pres", "cover", "call"}}
 		},
 		Extra: func(e *Engine, tier string) []*FuncResult {
-			return []*FuncResult{e.mergeFlowResult(), e.yamlCarriedResult(map[string]bool{"AsRewriteRule": true, "AsSelector": true}, "c17")}
+			return []*FuncResult{e.mergeFlowResult(), e.siblingCopyResult(), e.yamlCarriedResult(map[string]bool{"AsRewriteRule": true, "AsSelector": true}, "c17")}
 		},
 		Assumptions: []string{
 			"configuration: every field of the YAML description of a builder / option rule or selector is read by its AsRewriteRule / AsSelector method (structural obligation over go/ssa, one per field)",
+			"disjunction_as_options: a def-use obligation over go/ssa requires every sibling option to be built from a deep copy taken in its own loop iteration (independence of the copy is C18's claim); the action itself is not under a functional contract",
 			"merge_into / compose: ast.Path.Append is under contract (a fresh array holding receiver ++ suffix, nothing pre-existing written) and a def-use obligation generated from the SSA of mergeBuilderInto requires every path of a copied assignment to be built by underPath.Append(old path) and nothing else; the loops of mergeBuilderInto (which options are copied, renamed, excluded) are not under contract",
 			"scope: rule contracts of the builder rules omit / rename, the option actions rename / rename_arguments / omit / duplicate / add_comments / array_to_append / map_to_index / unfold_boolean and the by-name selectors: each states what comes back for a selected builder/option (including what is kept: arguments, assignments, target paths, defaults) and that non-applicable inputs come back unchanged",
 			"NOT covered by this check: the rewriter glue (Rewriter.ApplyTo / applyBuilderRules / applyOptionRules) that applies rules behind selectors, sequences of rules, path well-typedness after MakePath, and the remaining rules (duplicate builder, properties, initialize, promote_to_constructor, add_option, add_factory, struct_fields_as_*, disjunction_as_options, add_assignment; merge_into / compose only as far as the re-rooting of paths goes)",
